@@ -274,7 +274,8 @@ def answerApi (p : Params) (fn : String) (a : List String) : Option String :=
         some (showChk (fun r => showSig r.1) (do let sk ← from_bytes p.skBytes sk; mldsa_sign p FUEL sk msg ctx (hedged == "1") tape))
       else
         some (showChk showSig (do let sk ← from_bytes p.skBytes sk; dil_sign p FUEL sk msg))
-  | "SecretKey::prehash_sign", [sk, phm, ctx, hedged, ph, tape] => do
+  -- the request carries the message (used by the implementation) and its digest (used by the model: SHA-2 is external)
+  | "SecretKey::prehash_sign", [sk, _msg, ctx, hedged, ph, tape, phm] => do
       let sk ← B sk; let phm ← B phm; let ctx ← optB ctx; let tape ← B tape; let ph ← phOf ph
       if ¬ p.mldsa then none else
       some (showChk (fun r => showSig r.1) (do let sk ← from_bytes p.skBytes sk; mldsa_prehash_sign p FUEL sk phm ctx (hedged == "1") ph tape))
@@ -284,7 +285,7 @@ def answerApi (p : Params) (fn : String) (a : List String) : Option String :=
         some (showChk boolStr (do let pk ← from_bytes p.pkBytes pk; mldsa_verify p pk msg sig ctx))
       else
         some (showChk boolStr (do let pk ← from_bytes p.pkBytes pk; dil_verify p pk msg sig))
-  | "PublicKey::prehash_verify", [pk, phm, sig, ctx, ph] => do
+  | "PublicKey::prehash_verify", [pk, _msg, sig, ctx, ph, phm] => do
       let pk ← B pk; let phm ← B phm; let sig ← B sig; let ctx ← optB ctx; let ph ← phOf ph
       if ¬ p.mldsa then none else
       some (showChk boolStr (do let pk ← from_bytes p.pkBytes pk; mldsa_prehash_verify p pk phm sig ctx ph))
